@@ -33,7 +33,7 @@ def shards(tier, seed):
 
 def floors(tier):
     return {"solves:in_process": 120, "solves:other_process": 120, "config:hybrid": 15, "config:evolutionary": 15, "config:n_emitter>1": 10,
-            "config:dm": 10, "hof:entries_checked": 150, "hof:updates_observed": 200, "generations:checked": 200, "aliasing:checks": 200, "config:seed_0": 3, "config:start_circuit_given": 8}
+            "config:dm": 10, "hof:entries_checked": 150, "hof:updates_observed": 200, "generations:checked": 200, "aliasing:checks": 200, "config:seed_0": 3, "config:start_circuit_given": 8, "config:noise_map:hybrid": 5, "config:noise_map:evolutionary": 5}
 
 
 def make_config(rng):
@@ -53,6 +53,7 @@ def make_config(rng):
             "n_pop": int(rng.integers(3, 9)), "n_stop": int(rng.integers(3, 9)), "n_hof": int(rng.integers(1, 6)),
             "tournament_k": int(rng.integers(0, 4)), "selection": bool(rng.integers(2)), "adaptive": bool(rng.integers(2)),
             "start_circuit": (not hybrid) and bool(rng.random() < 0.5),
+            "noise": bool(rng.random() < 0.25),
             "det": int(rng.integers(2)), "seed": int(rng.integers(100000)) if rng.random() > 0.2 else int(rng.integers(0, 2))}   # seeds 0 and 1 are common user choices
 
 
@@ -81,12 +82,27 @@ def build_solver(cfg, circuit=None):
     comp.measurement_determinism = cfg["det"]
     setting = EvolutionarySolverSetting(n_hof=cfg["n_hof"], n_stop=cfg["n_stop"], n_pop=cfg["n_pop"], tournament_k=cfg["tournament_k"],
                                         selection_active=cfg["selection"], use_adapt_probability=cfg["adaptive"])
+    nkw = {}
+    if cfg.get("noise"):
+        # a noise map without branching noise (the stabilizer backend multiplies its mixture by four per depolarizing event):
+        # Pauli errors and photon loss change every score, which is what makes "the stored score is the metric of the stored
+        # circuit under the solver's noise model" a claim with content
+        import graphiq.noise.noise_models as nm
+        if cfg["backend"] == "DensityMatrixCompiler":
+            # (the density-matrix fidelity refuses sub-normalised states, so no photon loss here; branching noise is cheap)
+            nkw = {"noise_model_mapping": {"e": {"Hadamard": nm.DepolarizingNoise(0.05), "Identity": nm.PauliError("X")},
+                                           "p": {"Hadamard": nm.PauliError("X"), "Phase": nm.DepolarizingNoise(0.02), "Identity": nm.PauliError("Z")},
+                                           "ee": {}, "ep": {}}}
+        else:
+            nkw = {"noise_model_mapping": {"e": {"Hadamard": nm.PauliError("Y"), "Identity": nm.PauliError("X")},
+                                           "p": {"Hadamard": nm.PhotonLoss(0.1), "Phase": nm.PauliError("X"), "Identity": nm.PhotonLoss(0.05)},
+                                           "ee": {}, "ep": {}}}
     if cfg["hybrid"]:
-        s = HybridEvolutionarySolver(target=target, metric=Infidelity(target=target), compiler=comp, solver_setting=setting)
+        s = HybridEvolutionarySolver(target=target, metric=Infidelity(target=target), compiler=comp, solver_setting=setting, **nkw)
     else:
         kw = {} if circuit is None else {"circuit": circuit}
         s = EvolutionarySolver(target=target, metric=Infidelity(target=target), compiler=comp, n_emitter=cfg["n_emitter"],
-                               n_photon=A.shape[0], solver_setting=setting, **kw)
+                               n_photon=A.shape[0], solver_setting=setting, **kw, **nkw)
     return s
 
 
@@ -235,6 +251,8 @@ def check_config(cfg, ctx, m, mon, probe):
     ctx.count("config:hybrid" if cfg["hybrid"] else "config:evolutionary")
     if cfg["seed"] == 0:
         ctx.count("config:seed_0")
+    if cfg.get("noise"):
+        ctx.count("config:noise_map" + (":hybrid" if cfg["hybrid"] else ":evolutionary"))
     if cfg["backend"].startswith("Density"):
         ctx.count("config:dm")
     if cfg["n_emitter"] > 1 and not cfg["hybrid"]:
@@ -295,7 +313,8 @@ def check_config(cfg, ctx, m, mon, probe):
         try:
             comp = m[cfg["backend"]]()
             comp.measurement_determinism = cfg["det"]
-            comp.noise_simulation = s.compiler.noise_simulation
+            # with a noise map the documented behaviour is a noisy simulation; without one the flag is whatever the solver uses
+            comp.noise_simulation = True if cfg.get("noise") else s.compiler.noise_simulation
             st = comp.compile(c)
             st.partial_trace(keep=list(range(s.n_photon)), dims=(s.n_photon + s.n_emitter) * [2])
             again = float(s.metric.evaluate(st, c))
@@ -305,7 +324,7 @@ def check_config(cfg, ctx, m, mon, probe):
         if not np.isclose(again, float(score), atol=1e-9, rtol=0):
             ctx.violation("stored_score_differs_from_re_evaluated_metric", case, {"rank": rank, "stored": float(score), "re_evaluated": again}, key="dishonest:metric")
             continue
-        if c.n_quantum <= 7:
+        if c.n_quantum <= 7 and not cfg.get("noise"):
             ref, problem = true_infidelity(c, cfg, m, mon)
             if problem is not None:
                 ctx.violation("stored_circuit_compile_disagrees_with_reference", case, {"rank": rank, "problem": problem[0], **problem[1]}, key="honesty_ref:" + problem[0])
